@@ -238,11 +238,22 @@ pub fn mpath_std<T: Shape>(s: &mut [T], toks: &[&str]) -> String {
 // ---------------------------------------------------------------- iterators, sorting, pointers on the std mirror
 /// drive a double-ended exact-size iterator by a step string: F next, B next_back, L len, H size_hint,
 /// N nth(1), Z nth(1000), R nth_back(1), T last(), C count()
-pub fn drive<I, X>(it: &mut I, steps: &str, mut show: impl FnMut(X, usize) -> String) -> String
+/// `inb=false` marker for an iterator transcript: more elements were handed out than the shortest field array holds
+/// (only possible on a desynchronised container: the element then lies beyond that array's length)
+pub fn iter_oob(transcript: &str, minlen: usize) -> &'static str {
+    let yielded = transcript.split(',').filter(|t| { let t = t.trim(); !t.is_empty() && !t.ends_with("none") && matches!(t.as_bytes()[0], b'F' | b'B' | b'N' | b'Z' | b'R' | b'T') }).count();
+    if yielded > minlen { " inb=false" } else { "" }
+}
+pub fn drive<I, X>(mut it: I, steps: &str, mut show: impl FnMut(X, usize) -> String) -> String
 where I: DoubleEndedIterator<Item = X> + ExactSizeIterator {
     let mut out: Vec<String> = vec![]; let mut k = 0usize;
     for c in steps.chars() {
         match c {
+            // internal iteration, consuming the iterator itself (so that an override of `fold` / `rfold` by the generated
+            // iterator is what runs): X = fold, Y = rfold, V = rev().for_each (= rfold through `Rev`); the rest of the steps is ignored
+            'X' => { it.fold((), |(), x| { out.push(format!("F{}", show(x, k))); k += 1; }); return out.join(",") }
+            'Y' => { it.rfold((), |(), x| { out.push(format!("B{}", show(x, k))); k += 1; }); return out.join(",") }
+            'V' => { it.rev().for_each(|x| { out.push(format!("B{}", show(x, k))); k += 1; }); return out.join(",") }
             'F' => out.push(match it.next() { Some(x) => { let s = format!("F{}", show(x, k)); k += 1; s } None => "Fnone".into() }),
             'B' => out.push(match it.next_back() { Some(x) => { let s = format!("B{}", show(x, k)); k += 1; s } None => "Bnone".into() }),
             // adaptor-style consumption: nth / nth_back (in range and overshooting), last, count
@@ -606,38 +617,42 @@ macro_rules! interp {
                         (ri, rs) }
                     // iter r <source> <steps>       (pure)   |   itermut r <source> <steps>   (every yielded element is written)
                     "iter" => { let r = reg(w[1]); let (src, steps) = (w[2], w[3]);
+                        let minlen = { let mut cs = vec![]; <T as Shape>::cols(&regs[r], &mut cs); cs.iter().map(|c| c.len()).min().unwrap_or(0) };
                         let ri = exec(0, || -> String {
                             let show = |x: $R<'_>, _k: usize| rids_s(&x);
-                            match src {
-                                "vec.iter" => drive(&mut regs[r].iter(), steps, show),
-                                "vec.for" => drive(&mut (&regs[r]).into_iter(), steps, show),
-                                "slice.iter" => { let sl = regs[r].as_slice(); let mut it: $IT<'_> = sl.iter(); drive(&mut it, steps, show) }
-                                "slice.into_iter" => drive(&mut regs[r].as_slice().into_iter(), steps, show),
-                                "slice.trait" => drive(&mut IntoIterator::into_iter(regs[r].as_slice()), steps, show),
-                                "slice.for_ref" => { let sl = regs[r].as_slice(); let mut it: $IT<'_> = (&sl).into_iter(); drive(&mut it, steps, show) }
-                                "slicemut.iter" => { let mut sl = regs[r].as_mut_slice(); let mut it: $IT<'_> = sl.iter(); drive(&mut it, steps, show) }
+                            let a: String = match src {
+                                "vec.iter" => drive(regs[r].iter(), steps, show),
+                                "vec.for" => drive((&regs[r]).into_iter(), steps, show),
+                                "slice.iter" => { let sl = regs[r].as_slice(); let mut it: $IT<'_> = sl.iter(); drive(it, steps, show) }
+                                "slice.into_iter" => drive(regs[r].as_slice().into_iter(), steps, show),
+                                "slice.trait" => drive(IntoIterator::into_iter(regs[r].as_slice()), steps, show),
+                                "slice.for_ref" => { let sl = regs[r].as_slice(); let mut it: $IT<'_> = (&sl).into_iter(); drive(it, steps, show) }
+                                "slicemut.iter" => { let mut sl = regs[r].as_mut_slice(); let mut it: $IT<'_> = sl.iter(); drive(it, steps, show) }
                                 // the view is used again after the iterator obtained from it by reference is gone
-                                "slice.iter.reuse" => { let sl = regs[r].as_slice(); let a = { let mut it: $IT<'_> = sl.iter(); drive(&mut it, steps, show) };
+                                "slice.iter.reuse" => { let sl = regs[r].as_slice(); let a = { let mut it: $IT<'_> = sl.iter(); drive(it, steps, show) };
                                     format!("{},P{},Q{}", a, sl.len(), sl.iter().count()) }
-                                "slicemut.iter.reuse" => { let mut sl = regs[r].as_mut_slice(); let a = { let mut it: $IT<'_> = sl.iter(); drive(&mut it, steps, show) };
+                                "slicemut.iter.reuse" => { let mut sl = regs[r].as_mut_slice(); let a = { let mut it: $IT<'_> = sl.iter(); drive(it, steps, show) };
                                     let n = sl.len(); format!("{},P{},Q{}", a, n, sl.iter().count()) }
-                                _ => panic!("bad iterator source") } });
-                        let rs = exec(1, || -> String { let a = drive(&mut mirs[r].iter(), steps, |x: &T, _k| el_ids(x));
+                                _ => panic!("bad iterator source") };
+                            format!("{}{}", a, iter_oob(&a, minlen)) });
+                        let rs = exec(1, || -> String { let a = drive(mirs[r].iter(), steps, |x: &T, _k| el_ids(x));
                             if src.ends_with(".reuse") { format!("{},P{},Q{}", a, mirs[r].len(), mirs[r].iter().count()) } else { a } });
                         (ri, rs) }
                     "itermut" => { let r = reg(w[1]); let (src, steps) = (w[2], w[3]); let nl = <T as Shape>::nleaves();
+                        let minlen = { let mut cs = vec![]; <T as Shape>::cols(&regs[r], &mut cs); cs.iter().map(|c| c.len()).min().unwrap_or(0) };
                         let ri = exec(0, || -> String {
                             let show = |mut x: $RM<'_>, k: usize| { let s = rmids_s(&x); let l = k % nl; let mut j = l as i64; <T as Shape>::rm_write(&mut x, &mut j, ((16 + k as u32) % 32) * 8 + l as u32); s };
-                            match src {
-                                "vec.iter_mut" => drive(&mut regs[r].iter_mut(), steps, show),
-                                "vec.for_mut" => drive(&mut (&mut regs[r]).into_iter(), steps, show),
-                                "slicemut.iter_mut" => { let mut sl = regs[r].as_mut_slice(); let mut it: $ITM<'_> = sl.iter_mut(); drive(&mut it, steps, show) }
-                                "slicemut.into_iter" => drive(&mut regs[r].as_mut_slice().into_iter(), steps, show),
-                                "slicemut.trait" => drive(&mut IntoIterator::into_iter(regs[r].as_mut_slice()), steps, show),
-                                "slicemut.iter_mut.reuse" => { let mut sl = regs[r].as_mut_slice(); let a = { let mut it: $ITM<'_> = sl.iter_mut(); drive(&mut it, steps, show) };
+                            let a: String = match src {
+                                "vec.iter_mut" => drive(regs[r].iter_mut(), steps, show),
+                                "vec.for_mut" => drive((&mut regs[r]).into_iter(), steps, show),
+                                "slicemut.iter_mut" => { let mut sl = regs[r].as_mut_slice(); let mut it: $ITM<'_> = sl.iter_mut(); drive(it, steps, show) }
+                                "slicemut.into_iter" => drive(regs[r].as_mut_slice().into_iter(), steps, show),
+                                "slicemut.trait" => drive(IntoIterator::into_iter(regs[r].as_mut_slice()), steps, show),
+                                "slicemut.iter_mut.reuse" => { let mut sl = regs[r].as_mut_slice(); let a = { let mut it: $ITM<'_> = sl.iter_mut(); drive(it, steps, show) };
                                     let n = sl.len(); format!("{},P{},Q{}", a, n, sl.iter_mut().count()) }
-                                _ => panic!("bad iterator source") } });
-                        let rs = exec(1, || -> String { let a = drive(&mut mirs[r].iter_mut(), steps, |x: &mut T, k| { let s = el_ids(x); let l = k % nl; let mut j = l as i64; <T as Shape>::own_write(x, &mut j, ((16 + k as u32) % 32) * 8 + l as u32); s });
+                                _ => panic!("bad iterator source") };
+                            format!("{}{}", a, iter_oob(&a, minlen)) });
+                        let rs = exec(1, || -> String { let a = drive(mirs[r].iter_mut(), steps, |x: &mut T, k| { let s = el_ids(x); let l = k % nl; let mut j = l as i64; <T as Shape>::own_write(x, &mut j, ((16 + k as u32) % 32) * 8 + l as u32); s });
                             if src.ends_with(".reuse") { format!("{},P{},Q{}", a, mirs[r].len(), mirs[r].iter_mut().count()) } else { a } });;
                         (ri, rs) }
                     // sort r <entry> [mod=m] [panic=k] [range=a:b]
